@@ -43,7 +43,8 @@ FLOORS = {"quick": {k: 1 for k in [
     "honest_validated", "honest_absent_validated", "branch_refused_invalidkey", "corrupt_judged",
     "corrupt_not_validated", "corrupt_validated_truth", "kind_drop", "kind_flip", "kind_otherkey",
     "kind_sibling", "kind_trunc", "exist_checks", "exist_true", "exist_false", "trie_nodes_checks",
-    "witness_ok", "witness_refused", "witness_reads", "wrong_claims_rejected", "partial_db_walks"]}}
+    "witness_ok", "witness_refused", "witness_reads", "wrong_claims_rejected", "partial_db_walks",
+    "related_branch_claims_rejected", "tries_over_a_minimal_mapping"]}}
 FLOORS["thorough"] = dict(FLOORS["quick"])
 
 
@@ -65,7 +66,7 @@ def flip(node, rnd):
 
 def run_case(case, ctx):
     rnd = random.Random(case.get("pseed", 0))
-    t, db = be.new_trie()
+    t, db = be.new_trie(ctx, minimal=case.get("pseed", 0) % 5 == 0)
     model = {}
     for op in case["ops"]:
         be.apply(t, model, op, ctx)
@@ -116,6 +117,16 @@ def run_case(case, ctx):
                 raise Violation("bin-branch-refused", "get_branch(%s) raised InvalidKeyError for a key that is %s" % (
                     hx(k), "stored" if k in model else "neither stored nor prefix-related to a stored key"))
             ctx.count("branch_refused_invalidkey")
+            # a refused key has an answer all the same (absent): the honest branches of the
+            # stored keys it is prefix-related to must not validate any value for it
+            for s in [s for s in model if prefix_related(k, s)][:3]:
+                sb_ = cut(get_branch, db, root, s, expect=(InvalidKeyError,))
+                if isinstance(sb_, Raised):
+                    continue
+                for claim in (model[s], b"forged"):
+                    if validated(list(sb_), root, k, claim):
+                        raise Violation("bin-branch-forged", "the branch of the stored key %s validates the value %r for key %s, which the trie does not hold" % (hx(s), claim, hx(k)))
+                    ctx.count("related_branch_claims_rejected")
         else:
             br = list(br)
             if not set(br) <= refnodes:
